@@ -6,7 +6,7 @@ from .refmodel import SidModel
 from .trees import TreeSet
 from .existmodel import AllModel
 
-TREE_NAMES = ["a", "a-b", "a.b", "a+b", "ab", "b", "oph", "ophelia", "x_rig", "B"]
+TREE_NAMES = ["a", "a-b", "a.b", "a+b", "ab", "b", "oph", "ophelia", "x_rig", "B", "rig"]
 
 
 class Lab:
